@@ -109,13 +109,6 @@ func c02fEvaluate(r *c02fRun) (o c02fOut) {
 		o.skip = "not-started"
 		return
 	}
-	if r.kind == "size-race" {
-		// SIZE, its echo and the final ack forged so that the two ends disagree on the size without noticing:
-		// the race of the size check (KNOWN_FINDINGS size-race:e2e); the machine of Model/Transfer.v checks
-		// the size atomically (Model/Protocol.v recv_v2 has the schedule [early]): direct oracle only
-		o.skip = "size-race-scenario"
-		return
-	}
 	if r.staleCut {
 		o.counts = append(o.counts, "tie-late-bytes-cut")
 	}
